@@ -31,7 +31,8 @@ CONSTANTS NI,       \* ids 1..NI
           NScopes,
           MaxOps,
           BoundaryRule, \* "le" (the code: invalidate when d(q, new) <= worst cached) or "lt" (model twin)
-          Core          \* TRUE: exhaustive-suffix mode - two documents pre-inserted, only Insert / Delete / Search steps
+          Core,         \* TRUE: exhaustive-suffix mode - two documents pre-inserted, only Insert / Delete / Search steps
+          MaxBatch      \* longest query list of a batch search (1 = no multi-query batches)
 
 Ids == 1..NI
 Pts == 0..NP
@@ -67,9 +68,11 @@ QcRemoveIf(P(_)) == SelectSeq(qc, LAMBDA e : ~P(e))
 QcPut(s, e) == LET t == <<e>> \o SelectSeq(s, LAMBDA x : ~(x.s = e.s /\ x.q = e.q))
                IN IF Len(t) > CapQ THEN SubSeq(t, 1, CapQ) ELSE t
 
-Filler == [id |-> 0, x |-> 0, s |-> 0, q |-> 0, k |-> 0]
+Filler == [id |-> 0, x |-> 0, s |-> 0, q |-> 0, k |-> 0, fl |-> "-", qs |-> <<>>, hits |-> <<>>]
 Rec(t, f) == [t |-> t] @@ f @@ Filler
-Log(r) == hist' = Append(hist, r)
+\* every step carries the model's cache size after it (qn) and, for searches, hit / miss per position (hits): the replay
+\* records the real ones and QcTrace.tla compares (code -> spec; MODEL-DRIFT only).  Log must be the LAST conjunct.
+Log(r) == hist' = Append(hist, r @@ [qn |-> Len(qc')])
 
 \* invalidate_for_insert: entries that are not full, or whose boundary the new vector can reach
 Affected(e, x) == \/ Len(e.res) < e.k
@@ -95,25 +98,57 @@ BulkLoad(id, x) ==
 
 UpdateMeta(id) ==
   /\ qc' = IF canon[id].p THEN <<>> ELSE qc
-  /\ Log(Rec("umeta", [id |-> id]))
   /\ UNCHANGED <<canon, hot>>
+  /\ Log(Rec("umeta", [id |-> id]))
 
 Flush ==
   /\ hot' = {}
-  /\ Log(Rec("flush", <<>>))
   /\ UNCHANGED <<canon, qc>>
+  /\ Log(Rec("flush", <<>>))
 
-Search(s, q, k) ==
-  LET hitIdx == { j \in DOMAIN qc : qc[j].s = s /\ qc[j].q = q /\ qc[j].k >= k }
-      served == IF hitIdx = {} THEN <<>> ELSE Prefix(qc[CHOOSE j \in hitIdx : TRUE].res, k)
-      canonical == \A j \in DOMAIN served : canon[served[j].id].p      \* filter_search_results_to_canonical
-      isHit == hitIdx # {} /\ canonical
-      ans == IF isHit THEN served ELSE TopK(q, k)
+\* what the cache would serve for (s, q, k): the index of a usable entry, or 0
+HitOf(c, s, q, k) ==
+  LET idx == { j \in DOMAIN c : c[j].s = s /\ c[j].q = q /\ c[j].k >= k }
+  IN IF idx = {} THEN 0
+     ELSE LET j == CHOOSE j \in idx : TRUE
+          IN IF \A r \in DOMAIN Prefix(c[j].res, k) : canon[c[j].res[r].id].p THEN j ELSE 0    \* filter_search_results_to_canonical
+
+\* single search; fl = "plain" | "timed" (same cache protocol) | "ef" (an ef override bypasses the cache altogether)
+Search(s, q, k, fl) ==
+  LET usecache == fl # "ef"
+      h     == IF usecache THEN HitOf(qc, s, q, k) ELSE 0
+      isHit == h # 0
+      ans   == IF isHit THEN Prefix(qc[h].res, k) ELSE TopK(q, k)
   IN /\ fresh' = (fresh /\ ValidAnswer(ans, q, k))
-     /\ qc' = IF isHit THEN LET e == qc[CHOOSE j \in hitIdx : TRUE] IN QcPut(qc, e)
+     /\ qc' = IF ~usecache THEN qc
+              ELSE IF isHit THEN QcPut(qc, qc[h])
               ELSE IF Len(ans) > 0 THEN QcPut(qc, [s |-> s, q |-> q, k |-> k, res |-> ans]) ELSE qc
-     /\ Log(Rec("search", [s |-> s, q |-> q, k |-> k]))
      /\ UNCHANGED <<canon, hot>>
+     /\ Log(Rec("search", [s |-> s, q |-> q, k |-> k, fl |-> fl, hits |-> <<isHit>>]))
+
+\* batch search: every query is looked up first (hits refresh their recency, in order), then the misses are computed
+\* and stored, in order
+RECURSIVE TouchAll(_, _, _, _, _)
+TouchAll(c, s, qs, k, j) ==
+  IF j > Len(qs) THEN c
+  ELSE LET h == HitOf(c, s, qs[j], k) IN TouchAll(IF h # 0 THEN QcPut(c, c[h]) ELSE c, s, qs, k, j + 1)
+RECURSIVE StoreAll(_, _, _, _, _, _)
+StoreAll(c, s, qs, k, miss, j) ==
+  IF j > Len(qs) THEN c
+  ELSE LET a == TopK(qs[j], k)
+       IN StoreAll(IF miss[j] /\ Len(a) > 0 THEN QcPut(c, [s |-> s, q |-> qs[j], k |-> k, res |-> a]) ELSE c, s, qs, k, miss, j + 1)
+
+BatchSearch(s, qs, k) ==
+  LET hit == [j \in DOMAIN qs |-> HitOf(qc, s, qs[j], k) # 0]
+      ans == [j \in DOMAIN qs |-> IF hit[j] THEN Prefix(qc[HitOf(qc, s, qs[j], k)].res, k) ELSE TopK(qs[j], k)]
+  IN /\ fresh' = (fresh /\ \A j \in DOMAIN qs : ValidAnswer(ans[j], qs[j], k))
+     /\ qc' = StoreAll(TouchAll(qc, s, qs, k, 1), s, qs, k, [j \in DOMAIN qs |-> ~hit[j]], 1)
+     /\ UNCHANGED <<canon, hot>>
+     /\ Log(Rec("bsearch", [s |-> s, k |-> k, qs |-> qs, fl |-> "batch", hits |-> hit]))
+
+\* a small family of query lists (keeps the batch steps from dominating the simulation): neighbours, and a repeated query
+BatchLists == { <<a, (a + 1) % (NP + 1)>> : a \in Pts } \cup
+              (IF MaxBatch >= 3 THEN { <<a, (a + 2) % (NP + 1), a>> : a \in Pts } ELSE {})
 
 Init == IF Core
         THEN \* documents 1 @ 0 and 2 @ 1 already written (and logged, so the replay performs the same writes)
@@ -131,10 +166,14 @@ Step ==
      \/ ~Core /\ \E id \in Ids, x \in Pts : BulkLoad(id, x) /\ UNCHANGED fresh
      \/ ~Core /\ \E id \in Ids : UpdateMeta(id) /\ UNCHANGED fresh
      \/ ~Core /\ Flush /\ UNCHANGED fresh
-     \/ \E s \in Scopes, q \in Pts, k \in 1..MaxK : Search(s, q, k)
+     \/ \E s \in Scopes, q \in Pts, k \in 1..MaxK, fl \in (IF Core THEN {"plain"} ELSE {"plain", "plain", "timed", "ef"}) : Search(s, q, k, fl)
+     \/ ~Core /\ MaxBatch >= 2 /\ \E s \in Scopes, k \in {1, MaxK}, qs \in BatchLists : BatchSearch(s, qs, k)
+     \* batches made of queries the cache holds (some positions hit) mixed with one other query
+     \/ ~Core /\ MaxBatch >= 2 /\ \E j \in DOMAIN qc, q \in Pts, k \in 1..MaxK, first \in BOOLEAN :
+          BatchSearch(qc[j].s, IF first THEN <<qc[j].q, q>> ELSE <<q, qc[j].q>>, k)
      \* repeat a search whose key the cache currently holds (same or smaller k: a model hit; larger k: must miss),
      \* in the same and in the other scope - listed separately so that simulation reaches cache hits often
-     \/ ~Core /\ \E j \in DOMAIN qc, k \in 1..MaxK, s \in Scopes : Search(s, qc[j].q, k)
+     \/ ~Core /\ \E j \in DOMAIN qc, k \in 1..MaxK, s \in Scopes : Search(s, qc[j].q, k, "plain")
      \* writes aimed at documents that sit in a cached result (special cases of Insert / Delete / BulkLoad, listed
      \* separately for the same reason): overwrite to any position, delete, bulk load
      \/ ~Core /\ \E j \in DOMAIN qc, r \in 1..MaxK, x \in Pts :
